@@ -62,7 +62,8 @@ type symstr struct {
 // symaddr is &cells[idx] for a symbolic idx known to be within range.
 type symaddr struct {
 	cells []value
-	idx   *sym.Term // BV64
+	idx   *sym.Term // BV64, known to be < len(cells)
+	path  []int     // struct field / array index path below the selected cell
 }
 
 // For map, array, *array, slice, string or channel.
